@@ -95,6 +95,22 @@ CHECKS = {
             "write: peak RSS must not grow with the size and output must keep up with input.",
             "Extrapolation beyond the largest size by the loop-state-independence argument; per-thread heap accounting.",
             "DESIGN.md §6 C11"),
+    "C12": ("exploration", "E-PROC",
+            "exhaustive product of logical cases x 64 I/O/option wirings of the real CLI with a reference model and a differential oracle across wirings",
+            "27 logical cases (valid/invalid inputs for decrypt, encrypt, password encrypt/decrypt; keyrings with the sender first/last/absent and decoy entries sharing 24-character key prefixes/suffixes "
+            "and name prefixes/extensions/case variants) x the full product {file argument|stdin} x {-o|stdout} x {-k|KESTREL_KEYRING} x {long|short options} x {command|alias} x {options before|after}: "
+            "exit 0 iff the reference CLI model says the operation completes; plaintext compared byte for byte; produced files validated by REF; the sender line must name exactly the entry whose key equals "
+            "REF's sender key or report it unknown with its encoding; all wirings of a case must agree; plus output files under a size limit (short write then EFBIG) where exit 0 would be untruthful.",
+            "Terminal-attached branches (isatty) are not covered: no pty is used.",
+            "DESIGN.md §6 C12"),
+    "C13": ("fault_enumeration", "E-PROC",
+            "exhaustive product of commands x failure causes x prior state of the output path on the real CLI, comparing the path before and after",
+            "75 (command, failure cause) cases over encrypt, decrypt, password encrypt, password decrypt and key generate — bad arguments, missing input, missing/absent/malformed keyring, unknown name, "
+            "missing private key, wrong password, unset password variable, no password source, wrong magic, corrupted header fields, corrupted/truncated first chunk, empty input, low-order recipient, "
+            "output path equal to input path, wrong-mode file — x {path absent, path present with 200000 sentinel bytes}: exit 1, path untouched. Later-chunk failures (corrupt chunk 2/3, truncation in chunk 3, "
+            "trailing data): exit 1 and the path holds exactly the authenticated prefix.",
+            "Bytes are compared, not inode/mtime; both orders are accepted for trailing data after the final chunk.",
+            "DESIGN.md §6 C13"),
     "C14": ("model_checking", "E-GRAPH",
             "explicit-state breadth-first search over `key generate` command histories (stateright::Model, level-synchronous parallel BFS), every state executed by the real CLI",
             "States are (initial keyring file state, sequence of <=2 (quick) / <=3 (thorough) `kestrel key generate -o F --env-pass` commands) over 7 initial states (absent, empty, with/without final "
